@@ -120,6 +120,18 @@ def run(ctx):
                         if v != com3:
                             ents[(int(v),) + hc] = numpy.nonzero(col == v)[0].astype(numpy.uint32)
                 dims.append(iindex(ents, com3, a.shape))
+        # a RELATION between arguments: the very same index object (and dense array) listed as two dimensions of one cube
+        # (a memo keyed by id(dim), or a generator shared by two positions, only shows then)
+        if len(dims) >= 1 and ctx.rng.random() < 0.2 and numpy.prod([e for s in c["shapes"] for e in s] + [e for e in c["shapes"][0]], dtype=int) <= (48 if thorough else 24):
+            k = ctx.rng.randrange(len(dims))
+            pos = ctx.rng.randrange(len(dims) + 1)
+            dims.insert(pos, dims[k])
+            for key in ("shapes", "arrs", "commons"):
+                c[key].insert(pos, c[key][k if k < pos else k])
+            c["ishape"] = tuple(list(c["ishape"])[:pos] + [c["ishape"][k if k < pos else k - 0]] + list(c["ishape"])[pos:])
+            c["same_object_twice"] = True
+            dist["same_object_twice"] = dist.get("same_object_twice", {})
+            dist["same_object_twice"]["yes"] = dist["same_object_twice"].get("yes", 0) + 1
         nsub = int(numpy.prod([e for s in c["shapes"] for e in s], dtype=int))
         dist["subcubes"][nsub] = dist["subcubes"].get(nsub, 0) + 1
         dist["ndims"][len(dims)] = dist["ndims"].get(len(dims), 0) + 1
@@ -134,8 +146,13 @@ def run(ctx):
         # dtype that holds it, Fortran order / transposed store / strided view / read-only (a 3-axis dimension laid out
         # in Fortran order is what exposes a flattening that assumes C order)
         xdense, form_tags = [], []
-        for a in dense:
-            b, tag = forms.int_array(ctx.rng, a, p=0.45)
+        seen = {}
+        for d_, a in zip(dims, dense):
+            if id(d_) in seen:                       # the same object twice for the array cube as well
+                b, tag = seen[id(d_)]
+            else:
+                b, tag = forms.int_array(ctx.rng, a, p=0.45)
+                seen[id(d_)] = (b, tag)
             xdense.append(b)
             form_tags.append(tag)
             dist["xcube_array_form"][tag.split("/")[-1]] = dist["xcube_array_form"].get(tag.split("/")[-1], 0) + 1
